@@ -216,6 +216,26 @@ theorem sanitize_not_injective :
     PathNorm.sanitizeL false ['a', ' ', 'b'] = PathNorm.sanitizeL false ['a', '_', 'b'] ∧
     PathNorm.sanitizeL false ['a', '/', 'b'] = PathNorm.sanitizeL false ['a', '_', 'b'] := by decide
 
+/-- percent-decoding of a path on its way to a URI (`%XX` with two hexadecimal digits becomes the character XX) -/
+def hexVal (c : Char) : Option Nat :=
+  if '0' ≤ c ∧ c ≤ '9' then some (c.toNat - '0'.toNat)
+  else if 'a' ≤ c ∧ c ≤ 'f' then some (c.toNat - 'a'.toNat + 10)
+  else if 'A' ≤ c ∧ c ≤ 'F' then some (c.toNat - 'A'.toNat + 10)
+  else none
+
+def unquote : List Char → List Char
+  | '%' :: h :: l :: rest =>
+    match hexVal h, hexVal l with
+    | some a, some b => Char.ofNat (16 * a + b) :: unquote rest
+    | _, _ => '%' :: unquote (h :: l :: rest)
+  | c :: rest => c :: unquote rest
+  | [] => []
+
+/-- …and the step from the templated path to the artifact's URI decodes percent escapes, which is not injective either:
+`a%41b` and `aAb` name one artifact (known finding C01-b). -/
+theorem percent_decoding_not_injective :
+    unquote "a%41b".toList = unquote "aAb".toList ∧ "a%41b" ≠ "aAb" := by decide
+
 example : Valid {} [.put 1 7 100 5, .put 2 8 200 5, .remove 1, .put 3 7 300 9] := by
   simp [Valid, FreshOp, step, put, remove, List.lookup]
 
